@@ -591,6 +591,33 @@ fn gen_values(rng: &mut Rng, maxlen: usize) -> Vec<i32> {
     v
 }
 
+/// Values over the whole 32-bit range (spans of 2048.0 and more, sums beyond 2^31): TLC's integers are 32 bits,
+/// so these events are recorded in a coarser unit.  Every value is a multiple of 32; then every gap and
+/// tolerance is one too and every class midpoint is a multiple of 16, and the event divided by 16 is an
+/// ordinary compress event with the same partition (the contract is invariant under this change of unit).
+fn compress_event_wide(out: &mut Out, ks: &[i32], m: u8) {
+    let vals: Vec<i32> = ks.iter().map(|k| k.wrapping_mul(32)).collect();
+    let input: Vec<FixWord> = vals.iter().map(|&v| FixWord(v)).collect();
+    let scaled: Vec<i32> = vals.iter().map(|v| v / 16).collect();
+    let sv: Vec<i32> = scaled.iter().copied().collect::<BTreeSet<i32>>().into_iter().collect();
+    watch::call(|| json!({"fn":"compress","vals":vals,"m":m}).to_string());
+    let r = catch(|| tfm::compress(&input, m));
+    watch::idle();
+    match r {
+        Err(p) => out.line(&json!({"fn":"compress","vals":scaled,"m":m,"unit":16,"panic":panic_text(p)})),
+        Ok((res, map)) => {
+            if res.iter().any(|f| f.0 % 16 != 0) {
+                out.line(&json!({"fn":"compress","vals":scaled,"m":m,"unit":16,
+                    "panic":format!("a representative is not a class midpoint (not a multiple of 16): {:?}", res.iter().map(|f| f.0).collect::<Vec<_>>())}));
+                return;
+            }
+            let res: Vec<i32> = res.iter().map(|f| f.0 / 16).collect();
+            let cls: Vec<u8> = sv.iter().map(|v| map.get(&FixWord(v.wrapping_mul(16))).map(|i| i.get()).unwrap_or(0)).collect();
+            out.line(&json!({"fn":"compress","vals":scaled,"m":m,"unit":16,"sv":sv,"cls":cls,"res":res}));
+        }
+    }
+}
+
 pub fn compress(args: &Args) -> i32 {
     quiet_panics();
     watch::start(args.str("out"), args.num("hang_s", 20.0));
@@ -643,6 +670,21 @@ pub fn compress(args: &Args) -> i32 {
             }
         };
         compress_event(&mut out, &vals, m);
+        // one multiset in eight also over the whole range of a fix word, with very small class limits
+        if i % 8 == 0 {
+            let len = rng.range(2, 24) as usize;
+            let half: i64 = 1 << 26; // 32 * 2^26 = 2^31
+            let ks: Vec<i32> = (0..len)
+                .map(|_| match rng.below(4) {
+                    0 => rng.range(-half, half - 1),
+                    1 => *rng.pick(&[-half, half - 1, -half + 1, half - 2, 0]),
+                    2 => rng.range(half - 4000, half - 1),
+                    _ => rng.range(-half, -half + 4000),
+                } as i32)
+                .collect();
+            let m = *rng.pick(&[1u8, 1, 2, 3, 15]);
+            compress_event_wide(&mut out, &ks, m);
+        }
     }
     0
 }
